@@ -38,6 +38,12 @@ class PLISTNode(ContainerNode):
     def calculate_total_size(self) -> int:
         return self.root.calculate_total_size()
 
+    def __eq__(self, other):
+        return isinstance(other, PLISTNode) and self.root == other.root
+
+    def __hash__(self):
+        return hash(self.root)
+
     def print(self, printer: Printer):
         printer.write(PLIST_HEADER)
         self.root.print(printer)
